@@ -13,23 +13,24 @@ COMP_NOTE = ('Bounded: operation alphabet and depth stated in the evidence rule;
 
 
 def env_sched_c01():
+    B_ = 1000      # the second asset's id is above CPython's small-int cache: equal ids are not identical objects
     s = []
     for dt in (0, 1, 2.5):
         for pr in (F, FP, PP, LP):
             s.append((dt, 1, pr, 'log', 0))
     for dt in (0, 1):
         for pr in (F, LP):
-            s.append((dt, 2, pr, 'log', 0))
+            s.append((dt, B_, pr, 'log', 0))
     for dt in (0, 1):
         for a in (0, 1):
             s.append((dt, 1, F, 'follow', a))
     for k in ('pause', 'unpause', 'cancel'):
-        s.append((1, 1, PP, k, 2))
-    s.append((1, 2, F, 'cancel', 2))
+        s.append((1, 1, PP, k, B_))
+    s.append((1, B_, F, 'cancel', B_))
     s.append((1, 1, F, 'past', 0))
     # deliberately NOT on the dyadic grid: 0.1 + 0.2 = 0.30000000000000004 > 0.3 (times that differ by float noise)
     s.append((0.1, 1, F, 'follow', 0.2))
-    s.append((0.3, 2, LP, 'log', 0))
+    s.append((0.3, B_, LP, 'log', 0))
     # an event that carries the id -1, which the library itself uses for TERMINATE and the resource manager's checks
     s.append((1, -1, F, 'log', 0))
     # an action that raises (the caller handles the exception and keeps stepping): it still ran, once
@@ -74,7 +75,7 @@ class C01(Check):
 
     def jobs(self, tier):
         D = 4 if tier == 'quick' else 5
-        params = {'depth': D, 'sched': env_sched_c01(), 'assets': [1, 2], 'runs': [-1, 0, 1, 2.5], 'system': True}
+        params = {'depth': D, 'sched': env_sched_c01(), 'assets': [1, 1000], 'runs': [-1, 0, 1, 2.5], 'system': True}
         # every fork-derived terminal path (up to 4000 per partition) is re-run linearly through the real System.simulate()
         jobs = split_first('env', f'ENV-C01[D{D}]', params, e2=4000, max_states=3000000, max_seconds=3000,
                            max_terminal_paths=4000)
@@ -108,7 +109,7 @@ class C07(Check):
     def jobs(self, tier):
         D = 5 if tier == 'quick' else 6
         params = {'depth': D, 'sched': env_sched_c07(), 'assets': [1, 2, 1000], 'runs': [1],
-                  'ext': ['pause', 'unpause', 'cancel', 'step']}
+                  'ext': ['pause', 'unpause', 'cancel', 'step', 'newenv']}
         jobs = split_first('env', f'ENV-C07[D{D}]', params, e2=200, max_states=3000000, max_seconds=3000)
         # longer sequences over a reduced alphabet (two assets, one priority, plain actions)
         D2 = 7 if tier == 'quick' else 9
